@@ -29,12 +29,9 @@ structure ArgEnv where
 
 def live (c : Nat) : Bool := c == 0
 
-/-- count classes of decode: 0 all k+m fragments, 1 zero, 2 minus one, 3 k-1. -/
-def decCount (e : ArgEnv) : Nat → Int
-  | 0 => (e.k + e.m : Nat)
-  | 1 => 0
-  | 2 => -1
-  | _ => (e.k : Int) - 1
+/-- count classes of decode: 0 all k+m fragments; 1 zero, 2 minus one, 3 k-1 — the non-zero
+    classes are all below k (k ≥ 1). -/
+def countShort (c : Nat) : Bool := c != 0
 
 /-- length classes: 0 the true fragment length (≥ 80), others shorter than a header. -/
 def lenShort (c : Nat) : Bool := c != 0
@@ -51,7 +48,7 @@ def argCheck (e : ArgEnv) (api : Api) (a : List Nat) : ArgOut :=
     if !live (g 0) then .rc (-EBACKENDNOTAVAIL)
     else if g 1 == 1 then .rc (-EINVALIDPARAMS) else if g 2 == 1 then .rc (-EINVALIDPARAMS)
     else if g 3 == 1 then .rc (-EINVALIDPARAMS)
-    else if decCount e (g 4) < (e.k : Int) then .rc (-EINSUFFFRAGS)
+    else if countShort (g 4) then .rc (-EINSUFFFRAGS)
     else if lenShort (g 5) then .rc (-EBADHEADER) else .rc 0
   | .decodeCleanup => if !live (g 0) then .rc (-EBACKENDNOTAVAIL) else .rc 0
   | .reconstruct =>
@@ -81,6 +78,14 @@ def argCheck (e : ArgEnv) (api : Api) (a : List Nat) : ArgOut :=
   | .backendAvailable =>
     -- a[1]: backend id as passed (the harness passes -1 as a huge unsigned value)
     if g 1 ≥ 9 then .rc 0 else if e.avail (g 1) then .rc 1 else .rc 0
+
+def ArgOut.allNeg : ArgOut → Bool
+  | .rc c => c < 0
+  | .triple a b c => a < 0 && b < 0 && c < 0
+
+def ArgOut.isOne : ArgOut → Bool
+  | .rc c => c == 1
+  | .triple _ _ _ => false
 
 /-- does the argument vector contain an invalid component (for the APIs that return codes)? -/
 def hasInvalid (api : Api) (a : List Nat) : Bool :=
